@@ -159,7 +159,12 @@ def legacy_samples():
 
 
 def round2(ctx, rng, cd, cat):
+    import time
     from .. import streamtie as st
+    t0 = time.time()
+
+    def mark(what):
+        core.log("c09 round2 %s at +%.1fs" % (what, time.time() - t0))
     lines, meta = [], {}
     repeats = {}
 
@@ -292,7 +297,9 @@ def round2(ctx, rng, cd, cat):
             add("T%d.sktail%s" % (li, tail.hex()), f + sk(b"xy", 7) + tail, None, "garbage", name + " + skippable", ["oneshot", "dctx"])
             if li in rsub:
                 rcases.append(("T%d.tail%s" % (li, tail.hex()), "nostrict", None, f + tail))
+    mark("decode cases built (%d lines)" % len(lines))
     out, errs = cd.impl(lines)
+    mark("decode cases run")
     if errs:
         ctx.violation(dict(kind="harness-crash", detail=errs[:2]), what="zv_codec crashed on a damaged frame (round-2 scenarios): %r" % (errs[0],))
     ndone = 0
@@ -321,8 +328,10 @@ def round2(ctx, rng, cd, cat):
                 fkey = None
             keyed(rep, key=fkey, what="checksummed legacy frame with damaged content accepted by libzstd path %s with altered content (%s of %s)" % (pth, cid, layout))
     rcases += prc
+    mark("decode cases judged")
     if rcases:
         mres = cd.model(rcases)
+        mark("R on %d cases" % len(rcases))
         for cid, m in mres.items():
             data, x, what, layout, fkey = meta[cid]
             rep = dict(layout=layout, damage=what, case=cid, decoder="R", frame_hex=data.hex(), result=str(m[:1] + m[2:])[:200])
@@ -357,6 +366,7 @@ def round2(ctx, rng, cd, cat):
         hl.append("W w%d %s %d" % (li, f.hex(), len(x) + 64))
         hm["w%d" % li] = ("W", None, (name,))
     ho, herrs = codec._run_chunks(eexe, hl, core.NCPU, 600)
+    mark("decoder histories run (%d)" % len(hl))
     if herrs:
         ctx.violation(dict(kind="harness-crash", detail=herrs[:2]), what="c09_enc crashed on a decoder history: %r" % (herrs[0],))
     for k, rest in ho.items():
@@ -401,27 +411,35 @@ def round2(ctx, rng, cd, cat):
         for params in ({}, {"stableIn": 1}, {"nbWorkers": 1}, {"nbWorkers": 1, "stableIn": 1}, {"contentSize": 0, "stableIn": 1}, {"checksum": 1, "stableIn": 1}):
             if ctx.quick and n > 5000 and params not in ({}, {"stableIn": 1}):
                 continue
-            for pledge in lies(n):
+            for pledge in lies(n) + [None]:      # None: no pledge at all (the size is auto-determined when the frame starts under ZSTD_e_end)
                 for ch in chunkings(n):
-                    if ctx.quick and rng.random() < (0.5 if n <= 5000 else 0.7):
+                    if ctx.quick and rng.random() < (0.5 if n <= 5000 else 0.85):
                         continue
                     pid += 1
-                    pl.append("P p%d s2 %s %d %s %s" % (pid, codec.params_str(params), pledge, ch, hexes[n]))
+                    pl.append("P p%d s2 %s %s %s %s" % (pid, codec.params_str(params), "-" if pledge is None else pledge, ch, hexes[n]))
                     pmeta["p%d" % pid] = ("s2", params, pledge, ch, n)
-        for var, kmax in (("old", 4), ("bl", 3)):
+        for var, kmax in (("old", 4), ("bl", 3), ("os", 2)):
             for k in range(kmax):
-                for pledge in lies(n):
+                for pledge in lies(n) + ([None] if var == "os" else []):
                     for ch in chunkings(n):
-                        if (ctx.quick and rng.random() < 0.6) or (n > 5000 and rng.random() < 0.5):
+                        if (ctx.quick and rng.random() < (0.6 if n <= 5000 else 0.85)) or (n > 5000 and rng.random() < 0.5):
                             continue
+                        if var == "os":
+                            # ZSTD_flushStream before the first accepted byte breaks the stable-buffer control of the following calls
+                            # (valid history refused, reported to the lead, not a C09 matter): not generated
+                            cc = [tuple(int(v) for v in c.split(":")) for c in ch.split(",")] if ch != "-" else []
+                            if any(cd == 1 and sum(min(n, a[0]) for a in cc[:j + 1]) == 0 for j, (cn, cd) in enumerate(cc)):
+                                continue
                         pid += 1
-                        pl.append("P p%d %s:%d - %d %s %s" % (pid, var, k, pledge, ch, hexes[n]))
-                        pmeta["p%d" % pid] = (var + str(k), {}, pledge, ch, n)
+                        pl.append("P p%d %s:%d - %s %s %s" % (pid, var, k, "-" if pledge is None else pledge, ch, hexes[n]))
+                        pmeta["p%d" % pid] = (var + str(k), {"stableIn": 1} if var == "os" else {}, pledge, ch, n)
         for pledge in lies(n)[:3]:
             pid += 1
             pl.append("P p%d c2 - %d - %s" % (pid, pledge, hexes[n]))
             pmeta["p%d" % pid] = ("c2", {}, pledge, "-", n)
+    mark("pledge histories built (%d)" % len(pl))
     po, perrs = codec._run_chunks(eexe, pl, core.NCPU, 900)
+    mark("pledge histories run")
     if perrs:
         ctx.violation(dict(kind="harness-crash", detail=perrs[:2]), what="c09_enc crashed on a compression history: %r" % (perrs[0],))
     # the same histories through the extracted model of the pledge bookkeeping (coq/Codec/C09Pledge.v): fixed=1 is the tree since
@@ -429,7 +447,7 @@ def round2(ctx, rng, cd, cat):
     mexe = core.build_extracted("c09model", "Extract/Extract_C09.v", "c09_driver.ml")
     ml_ = []
     for k, (var, params, pledge, ch, n) in pmeta.items():
-        if not (var == "s2" or var.startswith("old")):
+        if not (var == "s2" or var.startswith("old") or var.startswith("os")):
             continue
         chs = [] if ch == "-" else [tuple(int(v) for v in c.split(":")) for c in ch.split(",")]
         hist, off = [], 0
@@ -446,7 +464,7 @@ def round2(ctx, rng, cd, cat):
                     hist.append((0, 1))
         if not hist or hist[-1][1] != 2:
             hist.append((0, 2))
-        mp = "-" if (var in ("old0", "old1") and pledge == 0) else str(pledge)
+        mp = "-" if (pledge is None or (var in ("old0", "old1", "os0", "os1") and pledge == 0)) else str(pledge)
         hs = ",".join("%d:%d" % c for c in hist)
         for fx in (0, 1):
             ml_.append("%s.%d %d %d %s %s" % (k, fx, fx, 1 if params.get("stableIn") else 0, mp, hs))
@@ -462,6 +480,9 @@ def round2(ctx, rng, cd, cat):
         if var == "c2":
             supplied = n
         ok = t[0] == "OK"
+        nopledge = pledge is None
+        if nopledge:
+            pledge = -1
         # is the pledge in force?  zstd.h (ZSTD_CCtx_setPledgedSrcSize, note 3): overridden when the end directive comes with the very
         # first call ("all input data is provided and consumed in a single round"); the legacy initialisers document 0 as "unknown".
         # With ZSTD_c_stableInBuffer a ZSTD_e_continue call below one block is only recorded: the pledge is in force as soon as such
@@ -482,28 +503,37 @@ def round2(ctx, rng, cd, cat):
                     in_force = False         # nothing was accepted before the end directive
         elif var.startswith("old"):
             in_force = bool(chs) and not (pledge == 0 and var in ("old0", "old1"))
+        elif var.startswith("os"):
+            acc, began = 0, False
+            for cn, cdir in chs:
+                acc = min(n, acc + cn)
+                began = began or cdir == 1 or acc >= BLK
+            in_force = pledge != 0 and (began or acc > 0)
+            deferred = not began
         elif var.startswith("bl"):
             in_force = not (pledge == 0 and var == "bl1")
         else:
+            in_force = False
+        if nopledge:
             in_force = False
         rep = dict(kind="pledge-history", variant=var, params=params, pledged=pledge, supplied=supplied, calls=ch, input_size=n,
                    result=" ".join(t[:1] + t[2:])[:300] if ok else rest[:300])
         ctx.count(("pledge2", var, pledge == supplied, in_force, deferred), nontrivial=True)
         if ok and in_force and pledge != supplied:
             keyed(rep, key=KEY_STABLEIN if deferred else None,
-                  what="compression (%s%s) with a pledged size of %d reported success although %d bytes were supplied (calls %s)" % (
+                  what="compression (%s%s) with a pledged size of %s reported success although %d bytes were supplied (calls %s)" % (
                               var, " " + str(params) if params else "", pledge, supplied, ch))
         elif not ok and (pledge == supplied or not in_force):
-            ctx.violation(rep, what="compression (%s%s) failed (%s) although the pledge %s (pledged %d, supplied %d, calls %s)" % (
+            ctx.violation(rep, what="compression (%s%s) failed (%s) although the pledge %s (pledged %s, supplied %d, calls %s)" % (
                 var, " " + str(params) if params else "", t[1], "was met" if pledge == supplied else "is documented as not in force", pledge, supplied, ch))
         if k + ".1" in mo:
             m1, m0 = mo[k + ".1"].split(" "), mo[k + ".0"].split(" ")
             ctx.cov["traces_validated_against_impl"] += 1
             expect_ok = not (in_force and pledge != supplied)
             if (m1[1] == "ok") != expect_ok:
-                ctx.violation(dict(rep, model=m1), what="the pledge model (fixed=1) disagrees with the property's statement on history %s (pledged %d, supplied %d)" % (ch, pledge, supplied), no_input=True)
+                ctx.violation(dict(rep, model=m1), what="the pledge model (fixed=1) disagrees with the property's statement on history %s (pledged %s, supplied %d)" % (ch, pledge, supplied), no_input=True)
             if ok != (m0[1] == "ok") and ok != (m1[1] == "ok"):
-                ctx.violation(dict(rep, model_as_is=m0, model_fixed=m1), what="libzstd's verdict (%s) on pledge history %s (%s, pledged %d, supplied %d) matches neither model of the pledge bookkeeping (before / since 99eca65)" % (
+                ctx.violation(dict(rep, model_as_is=m0, model_fixed=m1), what="libzstd's verdict (%s) on pledge history %s (%s, pledged %s, supplied %d) matches neither model of the pledge bookkeeping (before / since 99eca65)" % (
                     "success" if ok else t[1], ch, var, pledge, supplied))
             if not ok and len(t) > 2 and t[2] != "-":
                 last = [c for c in t[2].split(";") if c][-1]
@@ -514,7 +544,9 @@ def round2(ctx, rng, cd, cat):
             dl.append("D %s oneshot - %s %s %d" % (k, codec.hx(b"the quick brown fox jumps over the lazy dog") if var in ("old3", "bl2") else "-", t[1], supplied + 64))
             if var in ("old3", "bl2"):
                 dl[-1] = dl[-1].replace(" oneshot ", " usingDict ")
+    mark("pledge histories judged")
     do, derrs = cd.impl(dl)
+    mark("pledge frames decoded (%d)" % len(dl))
     for k, rest in do.items():
         var, params, pledge, ch, n = pmeta[k]
         chs = [] if ch == "-" else [tuple(int(v) for v in c.split(":")) for c in ch.split(",")]
@@ -522,7 +554,7 @@ def round2(ctx, rng, cd, cat):
         r = codec.parse_ok(rest)
         if r[0] != "OK" or r[1] != inputs[n][:supplied]:
             ctx.violation(dict(kind="pledge-history", variant=var, params=params, pledged=pledge, supplied=supplied, calls=ch, result=str(r[:2])[:200]),
-                          what="a frame reported as successfully compressed (%s, pledged %d, supplied %d) does not decode to the supplied bytes: %s" % (
+                          what="a frame reported as successfully compressed (%s, pledged %s, supplied %d) does not decode to the supplied bytes: %s" % (
                               var, pledge, supplied, r[1] if r[0] == "ERR" else "content differs"))
     ctx.notes["round2_pledge_histories"] = len(po)
     if repeats:
@@ -535,7 +567,10 @@ def run(ctx):
                        "frame EVERY cut point k in 1..|f|-1 x {one-shot, stream 1-byte / 7-byte / whole segments, buffer-less, R}; trailing garbage; "
                        "every single-bit flip of the stored checksum; sampled bit flips elsewhere; content-size lies; pledged-size lies; "
                        "distinct = distinct (layout, kind of damage, position class); non-trivial = every case (all are damaged frames)")
+    import time
+    t00 = time.time()
     ctx.prove()
+    core.log("c09 prove done at +%.1fs" % (time.time() - t00))
     cd = codec.Codec(ctx)
     rng = random.Random(ctx.seed)
     cat = catalogue(ctx, rng, cd)
@@ -612,10 +647,13 @@ def run(ctx):
             if k in bounds:
                 continue
             add("K%d.cut%d" % (ci, k), data[:k], None, "prefix", name, PATHS)
+    core.log("c09 round1 cases built (%d lines) at +%.1fs" % (len(lines), time.time() - t00))
     out, errs = cd.impl(lines)
+    core.log("c09 round1 impl done at +%.1fs" % (time.time() - t00))
     if errs:
         ctx.violation(dict(kind="harness-crash", detail=errs[:2]), what="zv_codec crashed on a damaged frame: %r" % (errs[0],))
     mres = cd.model(rcases)
+    core.log("c09 round1 R done (%d cases) at +%.1fs" % (len(rcases), time.time() - t00))
     nfull = 0
     for key, rest in out.items():
         cid, pth = key.split("|")
@@ -713,6 +751,7 @@ def run(ctx):
         elif mod[0] != "OK" or mod[1] != got[0]:
             ctx.violation(dict(kind="xxh-model", seed=sd, chunks=[c.hex() for c in ch][:50], impl=got[0], model=" ".join(mod)),
                           what="the XXH64 streaming model disagrees with XXH64_update/digest of the current tree", no_input=True)
+    core.log("c09 round1 done at +%.1fs" % (time.time() - t00))
     round2(ctx, random.Random(ctx.seed * 7919 + 9), cd, cat)
     ctx.notes["layouts"] = len(cat)
     ctx.notes["complete_frames_decoded"] = nfull
